@@ -116,7 +116,7 @@ def gen_config(seed, tier='quick', family=None):
         'ext': wl.choice(['.pkl', '.pkl', '.pklz', '.h5']),
         'save_every': wl.choice([0.0, 0.0, 0.0, 1.0, 1000.0]),
         'clock': wl.choice(['steady', 'steady', 'slow', 'jumpy']),
-        'chi': wl.choice([4, 8, 16]),
+        'chi': wl.choice([4, 4, 8, 16]),  # chi=4 truncates for L>=6: most state-carrying defects need a binding truncation
         'preexisting_output': wl.random() < 0.15,
         'extra_measurements': wl.random() < 0.4,
         'seed': seed,
